@@ -10,6 +10,9 @@ use crate::zobrist::ZobristHasher;
 use std::cmp::{max, min, Reverse};
 use std::sync::mpsc;
 use std::thread;
+#[cfg(walleye_verif)]
+use crate::verif_seam::time::{Duration, Instant};
+#[cfg(not(walleye_verif))]
 use std::time::{Duration, Instant};
 
 const MATE_SCORE: i32 = 100000;
